@@ -46,8 +46,11 @@ CMDS = ["plain", "scanner", "uds"]
 HOOKS = ["none", "ok", "fail", "missing"]
 
 
+DB_OPEN_FAILS = ("dir", "garbage", "schema")  # the path is a directory / not a database / a database of another schema version
+
+
 def expected_code(case: dict[str, Any]) -> int:
-    if case["db"] == "dir":
+    if case["db"] in DB_OPEN_FAILS:
         return 70
     k = case["kind"]
     if k == "return":
@@ -128,6 +131,17 @@ def make_command(case: dict[str, Any], d: Path) -> Any:
     elif case["db"] == "dir":
         (d / "dbdir").mkdir()
         common["db"] = d / "dbdir"
+    elif case["db"] == "garbage":
+        (d / "junk.sqlite").write_bytes(b"this is not a database\n" * 40)
+        common["db"] = d / "junk.sqlite"
+    elif case["db"] == "schema":
+        import sqlite3 as _sq3
+
+        con = _sq3.connect(d / "old.sqlite")
+        con.executescript("CREATE TABLE version (schema text unique, version text); INSERT INTO version VALUES ('main', '0.1');")
+        con.commit()
+        con.close()
+        common["db"] = d / "old.sqlite"
     if case["lock"]:
         common["lock_file"] = d / "lock"
     for v in ("pre", "post"):
@@ -343,7 +357,7 @@ def observe(case: dict[str, Any], d: Path, res: dict[str, Any]) -> dict[str, Any
 
 
 def expected_markers(case: dict[str, Any]) -> list[str]:
-    if case["db"] == "dir":
+    if case["db"] in DB_OPEN_FAILS:
         return []
     order = ["setup"]
     p, k = case["point"], case["kind"]
@@ -374,7 +388,7 @@ def check(case: dict[str, Any]) -> list[tuple[str, str]]:
             hook_state = "failing-pre-hook"
         elif case["post_hook"] in ("fail", "missing"):
             hook_state = "failing-post-hook"
-    where = "db-open" if case["db"] == "dir" else (f"{case['cmd']}/{case['point']}" if case["kind"] != "return" else case["cmd"])
+    where = "db-open" if case["db"] in DB_OPEN_FAILS else (f"{case['cmd']}/{case['point']}" if case["kind"] != "return" else case["cmd"])
     ctx = f"{case}"
     if obs["escaped"] is not None:
         site = hook_state if hook_state != "hooks-ok" else where
@@ -431,7 +445,7 @@ def check(case: dict[str, Any]) -> list[tuple[str, str]]:
             if case[f"{v}_hook"] in ("ok", "fail"):
                 env = obs.get(f"{v}_env")
                 if env is None:
-                    if v == "post" or case["db"] != "dir":
+                    if v == "post" or case["db"] not in DB_OPEN_FAILS:
                         out.append((f"C15/hook-not-run/{v}/{where}", f"{ctx}"))
                     continue
                 if env.get("GALLIA_HOOK") != v or "GALLIA_INVOCATION" not in env or "GALLIA_ARTIFACTS_DIR" not in env:
@@ -456,7 +470,7 @@ def check(case: dict[str, Any]) -> list[tuple[str, str]]:
 def case_s(draw) -> dict[str, Any]:
     kind = draw(st.sampled_from(KINDS))
     return {"cmd": draw(st.sampled_from(CMDS)), "kind": kind, "point": draw(st.sampled_from(POINTS)) if kind != "return" else "main",
-            "artifacts": draw(st.booleans()), "db": draw(st.sampled_from(["off", "on", "on", "dir"])), "lock": draw(st.booleans()),
+            "artifacts": draw(st.booleans()), "db": draw(st.sampled_from(["off", "on", "on", "on", "dir", "garbage", "schema"])), "lock": draw(st.booleans()),
             "hooks_enabled": draw(st.sampled_from([True, True, True, False])), "pre_hook": draw(st.sampled_from(HOOKS)), "post_hook": draw(st.sampled_from(HOOKS)),
             "db_close": draw(st.sampled_from([None, None, None, "complete", "disconnect"])),
             "rich": draw(st.one_of(st.none(), st.fixed_dictionaries({
@@ -466,7 +480,7 @@ def case_s(draw) -> dict[str, Any]:
 
 def grid() -> list[dict[str, Any]]:
     out = []
-    for cmd, kind, art, db, lock in itertools.product(CMDS, KINDS, [False, True], ["off", "on", "dir"], [False, True]):
+    for cmd, kind, art, db, lock in itertools.product(CMDS, KINDS, [False, True], ["off", "on", "dir", "garbage", "schema"], [False, True]):
         for point in (POINTS if kind != "return" else ["main"]):
             for he, pre, post in [(True, "none", "none"), (True, "ok", "ok"), (True, "fail", "ok"), (True, "ok", "fail"), (True, "missing", "missing"), (False, "ok", "fail")]:
                 out.append({"cmd": cmd, "kind": kind, "point": point, "artifacts": art, "db": db, "lock": lock, "hooks_enabled": he, "pre_hook": pre, "post_hook": post,
@@ -507,7 +521,7 @@ def run_shard(spec: dict[str, Any], seed: int) -> Collector:
 
     def body(case: dict[str, Any]) -> None:
         res = check(case)
-        col.case(str(case), nontrivial(case), cls=f"{case['cmd']}/{case['kind']}" + ("/db-dir" if case["db"] == "dir" else ""), sample=case)
+        col.case(str(case), nontrivial(case), cls=f"{case['cmd']}/{case['kind']}" + (f"/db-{case['db']}" if case["db"] in DB_OPEN_FAILS else ""), sample=case)
         for b, m in res:
             col.violation(b, case, m)
 
